@@ -81,6 +81,8 @@ GetVec(t, ks) ==
               ELSE <<"values", [i \in DOMAIN ks |-> Val(tabs[t], ks[i])]>>)
 Contains(t, ks) == NoChange /\ Obs(<<"bools", [i \in DOMAIN ks |-> B(Has(tabs[t], ks[i]))]>>)
 ContainsOne(t, k) == NoChange /\ Obs(<<"bool", B(Has(tabs[t], k))>>)
+\* a query vector far longer than TLC could hold, in compressed form: n copies of v before / after an ordinary tail
+ContainsRep(t, v, n, tail) == NoChange /\ Obs(<<"boolsrep", B(Has(tabs[t], v)), n, [i \in DOMAIN tail |-> B(Has(tabs[t], tail[i]))]>>)
 Items(t) == NoChange /\ Obs(<<"dict", tabs[t][1], tabs[t][2]>>)
 
 SetT(t, ks, vals) ==
@@ -149,6 +151,7 @@ HStep(st) ==
     [] st[1] = "fill" -> Fill(st[2], st[3])
     [] st[1] = "contains" -> Contains(st[2], st[3])
     [] st[1] = "containsone" -> ContainsOne(st[2], st[3])
+    [] st[1] = "containsrep" -> ContainsRep(st[2], st[3], st[4], st[5])
     [] st[1] = "zeros_like" -> Like(st[2], 0)
     [] st[1] = "ones_like" -> Like(st[2], 1)
     [] st[1] = "add" -> AddT(st[2], st[3])
